@@ -160,6 +160,14 @@ func c08Case(ev *vlib.Evidence, driver string, idx int, allowHang bool) {
 			nn.LastSeen = time.Now().Add(-vlib.Pick(r, 130*time.Second, 180*time.Second, time.Hour))
 			w.RawStore.SetNode(nn)
 		}
+		if h.fresh && !h.peered && r.Intn(4) == 0 {
+			// still inside the activity window, though not by much
+			n, _ := w.RawStore.GetNode(store.NodeID(h.id.NodeID))
+			nn := *n
+			nn.LastSeen = time.Now().Add(-vlib.Pick(r, 95*time.Second, 100*time.Second, 108*time.Second))
+			w.RawStore.SetNode(nn)
+			trace = append(trace, fmt.Sprintf("host%s last seen %s ago", h.id.Name[7:], time.Since(nn.LastSeen).Round(time.Second)))
+		}
 		if !h.connected && h.carrier == nil {
 			h.conn.Close()
 		}
